@@ -97,6 +97,9 @@ impl Campaign for C14c {
     fn crash_is_violation(&self) -> bool {
         true
     }
+    fn extra_assumptions(&self) -> Vec<String> {
+        vec!["'bounded in proportion to the bytes actually received' is read as: largest single allocation <= 4 x bytes sent + 2 MiB and live-heap growth <= 24 x bytes sent + 24 MiB (the harness' own copies of the scenario are included in the measurement); declared lengths in the generator start at 128 MiB".into()]
+    }
     fn generate(&self, rng: &mut Rng, index: u64, _tier: Tier) -> Scenario {
         let mut sc = Scenario::new();
         let mut k = rng.sub("knobs");
